@@ -339,6 +339,9 @@ func (g *vcgen) emb(st types.Type, field string, base string) string {
 	}
 	t := fmt.Sprintf("(%s %s)", fn, base)
 	g.emit(fmt.Sprintf("(assert (and (< %s 0) (= (%s %s) %s) (= (embid %s) %d)))", t, inv, t, base, t, id))
+	if g.freshObjs[base] {
+		g.freshObjs[t] = true // a part of an object allocated by this call
+	}
 	return t
 }
 
